@@ -2179,3 +2179,110 @@ def fold_try_else_copy(fn):
     set_parents(out)
     out._parent = getattr(fn, "_parent", None)
     return out
+
+
+def reduce_thunk_calls(fn):
+    """`v = lambda: E` followed, in the same block and before `v` or a free
+    name of E is assigned again, by calls `v()`: each call is E (what a loop
+    over a tuple of zero-argument lambdas leaves once it is unrolled - every
+    command still built when its turn comes).  The lambda stores that are
+    then dead, and a tuple of lambdas nobody reads, are dropped.  In place on
+    a copy; returns the copy (or fn when nothing applies)."""
+    out = acopy(fn)
+    changed = [0]
+
+    def thunk(s):
+        return isinstance(s, ast.Assign) and len(s.targets) == 1 and \
+            isinstance(s.targets[0], ast.Name) and isinstance(
+                s.value, ast.Lambda) and not (
+                    s.value.args.args or s.value.args.vararg or
+                    s.value.args.kwarg or s.value.args.kwonlyargs or
+                    s.value.args.posonlyargs)
+
+    def stores(s):
+        return {x.id for x in ast.walk(s) if isinstance(x, ast.Name) and
+                isinstance(x.ctx, (ast.Store, ast.Del))}
+
+    class R(ast.NodeTransformer):
+        def __init__(self, v, body):
+            self.v, self.body, self.n = v, body, 0
+
+        def visit_Lambda(self, n):
+            return n
+
+        def visit_Call(self, n):
+            self.generic_visit(n)
+            if isinstance(n.func, ast.Name) and n.func.id == self.v and \
+                    not n.args and not n.keywords:
+                self.n += 1
+                return ast.copy_location(acopy(self.body), n)
+            return n
+
+    def block(stmts):
+        i = 0
+        while i < len(stmts):
+            s = stmts[i]
+            if thunk(s):
+                v = s.targets[0].id
+                free = {x.id for x in ast.walk(s.value.body)
+                        if isinstance(x, ast.Name)}
+                j = i + 1
+                while j < len(stmts):
+                    t = stmts[j]
+                    if isinstance(t, (ast.For, ast.While, ast.AsyncFor,
+                                      ast.FunctionDef, ast.AsyncFunctionDef,
+                                      ast.ClassDef)):
+                        break
+                    r = R(v, s.value.body)
+                    stmts[j] = r.visit(t)
+                    changed[0] += r.n
+                    if stores(stmts[j]) & (free | {v}):
+                        break
+                    j += 1
+            for fld in ("body", "orelse", "finalbody"):
+                sub = getattr(s, fld, None)
+                if isinstance(sub, list) and sub and isinstance(
+                        sub[0], ast.stmt) and not isinstance(
+                            s, (ast.FunctionDef, ast.AsyncFunctionDef,
+                                ast.ClassDef)):
+                    block(sub)
+            if isinstance(s, ast.Try):
+                for h in s.handlers:
+                    block(h.body)
+            i += 1
+    block(out.body)
+    if not changed[0]:
+        return fn
+    # lambdas (and tuples of lambdas) nobody reads any more
+    loads = {x.id for x in ast.walk(out) if isinstance(x, ast.Name) and
+             isinstance(x.ctx, (ast.Load, ast.Del))}
+
+    def dead(s):
+        if not (isinstance(s, ast.Assign) and len(s.targets) == 1 and
+                isinstance(s.targets[0], ast.Name) and
+                s.targets[0].id not in loads):
+            return False
+        v = s.value
+        return isinstance(v, ast.Lambda) or (
+            isinstance(v, (ast.Tuple, ast.List)) and v.elts and all(
+                isinstance(e, ast.Lambda) for e in v.elts))
+
+    def sweep(stmts):
+        stmts[:] = [s for s in stmts if not dead(s)] or [ast.Pass()]
+        for s in stmts:
+            if isinstance(s, (ast.FunctionDef, ast.AsyncFunctionDef,
+                              ast.ClassDef)):
+                continue
+            for fld in ("body", "orelse", "finalbody"):
+                sub = getattr(s, fld, None)
+                if isinstance(sub, list) and sub and isinstance(
+                        sub[0], ast.stmt):
+                    sweep(sub)
+            if isinstance(s, ast.Try):
+                for h in s.handlers:
+                    sweep(h.body)
+    sweep(out.body)
+    ast.fix_missing_locations(out)
+    set_parents(out)
+    out._parent = getattr(fn, "_parent", None)
+    return out
